@@ -30,7 +30,7 @@ MIN_EVENTS = {"calls": 10000, "functions_exercised": 35}
 
 
 def cases(tier):
-    return 400 * len(NAMES) if tier == "quick" else 10000 * len(NAMES)
+    return 1000 * len(NAMES) if tier == "quick" else 10000 * len(NAMES)
 
 
 def setup(tier):
